@@ -124,6 +124,7 @@ func krModel(reqs []kreq, db map[keyReq]krec, dbErr bool, fetchers []*fetcherScr
 		return nil, true, nil, false
 	}
 	have := map[keyReq]krec{}
+	toStore := map[keyReq]krec{}
 	outstanding := map[keyReq]bool{}
 	for k := range needed {
 		outstanding[k] = true
@@ -193,11 +194,13 @@ func krModel(reqs []kreq, db map[keyReq]krec, dbErr bool, fetchers []*fetcherScr
 				continue
 			}
 			have[k] = r
+			toStore[k] = r
 			delete(outstanding, k)
 		}
 	}
 	check()
-	return ok, false, have, fetched
+	// "stores what it fetched": the records the fetchers supplied and that were taken, not what was only read
+	return ok, false, toStore, fetched
 }
 
 type keyWorld struct {
@@ -434,6 +437,23 @@ func runKeyRing(c *mon.Ctx, name string, desc map[string]any, reqs []kreq, db ma
 						c.Failf("keyring:stored-record-differs", "StoreKeys received another record for %s/%s than the source that answered it supplied (valid_until %d vs %d, expired %d vs %d)\n%s", k.ServerName, k.KeyID, got.ValidUntilTS, want.validUntil, got.ExpiredTS, want.expired, fmtDesc(desc))
 						break
 					}
+				}
+			}
+		}
+		// ... and nothing else is: a record the call only read from the database is not written back (a concurrent call
+		// may have stored a fresher one in the meantime; writing the old one back would lose that update)
+		for _, batch := range mdb.storeLog {
+			for k, got := range batch {
+				supplied := false
+				for _, f := range fetchers {
+					for _, src := range []map[keyReq]krec{f.answers, f.extras} {
+						if r, ok := src[k]; ok && string(r.pub) == string(got.Key) && r.validUntil == int64(got.ValidUntilTS) && r.expired == int64(got.ExpiredTS) {
+							supplied = true
+						}
+					}
+				}
+				if !supplied {
+					c.Failf("keyring:stores-a-record-no-fetcher-supplied", "StoreKeys received a record for %s/%s (valid_until %d, expired %d) that no fetcher supplied in this call\n%s", k.ServerName, k.KeyID, got.ValidUntilTS, got.ExpiredTS, fmtDesc(desc))
 				}
 			}
 		}
